@@ -185,6 +185,10 @@ type world struct {
 	unregTrue  map[int]bool // handles whose unregister returned true
 	enableSeen bool
 	pendingAck int
+	labels     []label // the labels executed before teardown, with the observed arms
+	inTeardown bool
+	diverged   int // explicit labels that could not be executed as recorded
+	twoArm     int // receives of the monitor with more than one ready arm
 	tokens     map[int]dials.CfgSerial[Cfg]
 
 	steps  []string // printed (label, obs) pairs
@@ -678,22 +682,73 @@ func (w *world) waitOffering(t *thread) {
 	}
 }
 
-func (w *world) execRecv(l label) {
-	var t *thread
-	if l.Src == "offer" {
-		t = w.threads[l.Tid]
-		w.waitOffering(t)
+// resolveExit: the monitor went to mon.exit while both its context and an
+// offering call were ready; the offer was taken iff that call has moved on.
+func (w *world) resolveExit(off *thread) string {
+	deadline := time.Now().Add(w.r.hardStop)
+	for {
+		if e, ok := w.r.poll(off.tid, 200*time.Microsecond); ok {
+			w.r.unread(e)
+			return "offer"
+		}
+		if _, blocked := w.r.blockedInLibrary(off.tid); blocked {
+			return "ctx"
+		}
+		if time.Now().After(deadline) {
+			panic(harnessError("cannot tell which arm of the monitor's select fired"))
+		}
+	}
+}
+
+// execRecv releases the monitor at its select.  With one ready arm the arm is
+// known; with several Go picks one and the harness reads it off what follows.
+func (w *world) execRecv(l *label) {
+	off := w.offerer()
+	if off != nil {
+		w.waitOffering(off)
+	}
+	arms := w.monArms()
+	if len(arms) > 1 {
+		w.twoArm++
 	}
 	w.r.release(whoMon)
 	w.noteMon(w.r.await(whoMon))
-	switch l.Src {
+	if w.stuck {
+		if len(arms) > 0 && l.Src == "" {
+			l.Src, l.Tid = arms[0].Src, arms[0].Tid
+		}
+		return
+	}
+	src := ""
+	switch {
+	case len(arms) == 1:
+		src = arms[0].Src
+	case w.monPoint == "mon.enable-reply":
+		src = "ctl"
+	case w.monPoint == "mon.exit":
+		switch {
+		case !w.mainDone:
+			src = "offer"
+		case off == nil:
+			src = "ctx"
+		default:
+			src = w.resolveExit(off)
+		}
+	default:
+		src = "offer"
+	}
+	if l.Src != "" && (l.Src != src || (src == "offer" && l.Tid != off.tid)) {
+		w.diverged++
+	}
+	l.Src = src
+	switch src {
 	case "ctl":
 		w.curEnable = w.ctlq[0]
 		w.ctlq = w.ctlq[1:]
 	case "offer":
-		if !w.stuck {
-			w.noteThread(t, w.r.await(t.tid))
-		}
+		t := off
+		l.Tid = t.tid
+		w.noteThread(t, w.r.await(t.tid))
 		if t.op.Msg.K == "update" && t.op.Msg.Blocking {
 			w.curReq = t.tid
 		} else {
@@ -772,7 +827,7 @@ func (w *world) exec(l label) {
 	case "act":
 		w.execAct(&l)
 	case "recv":
-		w.execRecv(l)
+		w.execRecv(&l)
 	case "monact":
 		w.execMonAct(&l)
 	case "take", "cbret", "ack":
@@ -784,6 +839,9 @@ func (w *world) exec(l label) {
 		w.execCancel(l)
 	}
 	w.counts["label-"+l.K]++
+	if !w.inTeardown {
+		w.labels = append(w.labels, l)
+	}
 	pair := fmt.Sprintf("(%s, %s)", l.coq(), w.observe(l.K == "start"))
 	w.steps = append(w.steps, pair)
 	if stepSink != nil {
@@ -792,3 +850,67 @@ func (w *world) exec(l label) {
 }
 
 var stepSink func(string)
+
+// applicable: can this recorded label be executed now without blocking?
+func (w *world) applicable(l label) bool {
+	switch l.K {
+	case "start":
+		if _, used := w.threads[l.Tid]; used || l.Op == nil {
+			return false
+		}
+		switch l.Op.K {
+		case "offer":
+			if l.Op.Msg == nil || l.Op.Msg.Src >= len(w.setup.Watching) || !w.setup.Watching[l.Op.Msg.Src] || w.offerer() != nil {
+				return false
+			}
+		case "register":
+			for _, tid := range w.order {
+				if t := w.threads[tid]; t.op.K == "register" && t.op.H == l.Op.H {
+					return false
+				}
+			}
+			if !l.Op.Zero && !w.slots[l.Op.Slot] {
+				return false
+			}
+		case "unregister":
+			w.r.mu.Lock()
+			_, ok := w.unreg[l.Op.H]
+			w.r.mu.Unlock()
+			return ok
+		}
+		return true
+	case "act":
+		t, ok := w.threads[l.Tid]
+		return ok && t.pc != "done" && t.pc != "offer" && len(w.readyArms(t)) > 0
+	case "recv":
+		return w.monAlive() && w.monPoint == "mon.loop" && len(w.monArms()) > 0
+	case "monact":
+		return w.monAlive() && w.monPoint != "mon.loop"
+	case "take":
+		return w.hasMon && w.cbPos == "take" && (len(w.cbq) > 0 || w.monPoint == "exited")
+	case "cbret":
+		return w.hasMon && w.cbPos == "call"
+	case "ack":
+		return w.hasMon && w.cbPos == "ack"
+	case "cancelmain":
+		return !w.mainDone
+	case "cancel":
+		t, ok := w.threads[l.Tid]
+		return ok && t.pc != "done" && !t.cancelled
+	}
+	return false
+}
+
+// replay executes recorded labels; what cannot be executed is skipped and counted
+func (w *world) replay(ls []label) {
+	for _, l := range ls {
+		if w.stuck {
+			return
+		}
+		if !w.applicable(l) {
+			w.diverged++
+			continue
+		}
+		w.do(l)
+	}
+}
